@@ -47,6 +47,58 @@ Theorem C14_utf8_bmp : forall c, c < 65536 -> scalar c = true -> utf8_dec (utf8_
 Proof. exact utf8_bmp_roundtrip. Qed.
 Print Assumptions C14_utf8_bmp.
 
+(* ---- a Requester that builds several requests in a row (rebuild with some or no
+   arguments; the other attributes are carried over) ---- *)
+
+(* For all states, all rebuild-argument sequences: every build of the history
+   sends exactly build(request it was asked to send) ... *)
+Theorem C14_history_wire : forall host port ops st,
+  Forall (fun rw => snd rw = build host port (fst rw)) (history host port st ops).
+Proof. exact history_wire. Qed.
+Print Assumptions C14_history_wire.
+
+(* ... where that request is: the given fields, and for the fields not given
+   those of the previous request *as they were given* (the path unquoted, the
+   same query dict; headers as the previous build left them; body / data /
+   fargs never carry over). *)
+Theorem C14_carry_over : forall host port st a,
+  let r := request_of st in
+  let r' := request_of (reinit (snd (build_step host port st)) a) in
+  q_method r' = match a_method a with Some m => m | None => q_method r end /\
+  q_path r' = match a_path a with Some p => p | None => q_path r end /\
+  q_qargs r' = match a_qargs a with Some q => q | None => q_qargs r end /\
+  q_headers r' = match a_headers a with Some h => h | None => final_headers r end /\
+  q_body r' = match a_data a, a_fargs a with
+              | Some e, _ => Json e
+              | None, Some f => Form f
+              | None, None => Raw (match a_body a with Some b => b | None => [] end)
+              end.
+Proof. exact next_request. Qed.
+Print Assumptions C14_carry_over.
+
+(* Hence the single-request round trip lifts to every build of every history. *)
+Theorem C14_history_lift : forall o host port ops st,
+  Forall (fun rw => roundtrip o host port (fst rw) = true ->
+                    exists p, parse_request o (snd rw) = Ok p /\ recovered (fst rw) p = true)
+         (history host port st ops).
+Proof. exact history_roundtrip. Qed.
+Print Assumptions C14_history_lift.
+
+(* Finite domain: 36 first requests (paths with blank, non-ASCII, literal %) x
+   every sequence of at most two rebuilds out of 6 (no arguments, method+body,
+   path only, qargs+data, method+headers+fargs, GET with empty qargs): every
+   build is well formed and parses back to the request of THAT build. *)
+Theorem C14_history_partial : forall rs, In rs h_grid -> history_ok rs = true.
+Proof. exact h_grid_roundtrip. Qed.
+Print Assumptions C14_history_partial.
+
+Example C14_history_example :
+  let st := state_of {| q_method := str "GET"; q_path := str "/docs/annual report.txt";
+                        q_qargs := []; q_headers := []; q_body := Raw [] |} in
+  map (fun rw => (q_path (fst rw), firstn 34 (snd rw))) (history ghost 8080 st [no_args; no_args]) =
+  let one := (str "/docs/annual report.txt", str "GET /docs/annual%20report.txt HTTP") in [one; one; one].
+Proof. vm_compute. reflexivity. Qed.
+
 (* Non-vacuity and the D20 witnesses: keys with '&', blank and non-ASCII, form
    values with '&' and '=' come back; the wire form is the expected one. *)
 Example C14_example :
